@@ -16,6 +16,9 @@ META = {
     "assumptions": ["finite floats as reals; negation is exact in IEEE as well"],
 }
 
+from engine import monitor as _monitor          # noqa: E402
+META["audit"] = lambda: _monitor.audit(('H5',))
+
 
 def ob_init_agent(names, n_obj):
     def f():
